@@ -119,7 +119,9 @@ class C11(Base):
         for op, o in zip(ops, obs):
             p = op.split(":")
             if o == "bad-op":
-                return "harness rejected op " + op
+                return "harness rejected op " + op + (" (fluent_args!: an expression was evaluated twice / not at all, or a caller-side item was shadowed by the expansion)" if p[0] == "macro" else "")
+            if o == "ITER-PROTOCOL-DISAGREE":
+                return "iter() consumed with skip / step_by / nth / count / last walks another sequence than the plain loop"
             if p[0] == "set":
                 m[p[1]] = p[3]
             elif p[0] in ("fromiter", "macro"):
